@@ -223,20 +223,88 @@ pub struct Report {
 
 static WATCHDOG_STARTED: AtomicBool = AtomicBool::new(false);
 
+/// Cases currently being executed, by worker thread (for the hang watchdog).
+static RUNNING: Mutex<Vec<(std::thread::ThreadId, Instant, String)>> = Mutex::new(Vec::new());
+
+/// Announce the case a worker is about to execute; a case that runs longer than
+/// VERIF_CASE_LIMIT seconds (default 120) ends the check as INCONCLUSIVE (exit 2)
+/// with the case printed - a hang is never reported as a violation.
+pub fn note_case(desc: impl FnOnce() -> String) {
+    let id = std::thread::current().id();
+    let mut r = RUNNING.lock().unwrap();
+    r.retain(|e| e.0 != id);
+    r.push((id, Instant::now(), desc()));
+}
+fn done<T>(x: T) -> T {
+    case_done();
+    x
+}
+pub fn case_done() {
+    let id = std::thread::current().id();
+    RUNNING.lock().unwrap().retain(|e| e.0 != id);
+}
+
+static mut CHECK_ID: [u8; 8] = [0; 8];
+
+/// SIGSEGV/SIGBUS (stack overflow of a worker): report the cases in flight and
+/// end the check as INCONCLUSIVE (exit 2) - resource exhaustion is never a violation.
+extern "C" fn on_segv(_sig: libc::c_int) {
+    let id = unsafe { std::str::from_utf8(&*std::ptr::addr_of!(CHECK_ID)).unwrap_or("?").trim_end_matches('\0').to_string() };
+    let mut msg = format!("INCONCLUSIVE property={id} reason=stack-overflow-or-segfault-in-worker");
+    if let Ok(r) = RUNNING.try_lock() {
+        for e in r.iter() {
+            msg.push_str(&format!("\n  in-flight: {}", one_line(&e.2, 600)));
+        }
+    }
+    msg.push('\n');
+    unsafe {
+        libc::write(1, msg.as_ptr() as *const libc::c_void, msg.len());
+        libc::_exit(2);
+    }
+}
+
+fn install_segv_handler(id: &str) {
+    unsafe {
+        let b = id.as_bytes();
+        for i in 0..b.len().min(8) {
+            (*std::ptr::addr_of_mut!(CHECK_ID))[i] = b[i];
+        }
+        let mut sa: libc::sigaction = std::mem::zeroed();
+        sa.sa_sigaction = on_segv as usize;
+        sa.sa_flags = libc::SA_ONSTACK;
+        libc::sigemptyset(&mut sa.sa_mask);
+        libc::sigaction(libc::SIGSEGV, &sa, std::ptr::null_mut());
+        libc::sigaction(libc::SIGBUS, &sa, std::ptr::null_mut());
+    }
+}
+
 fn start_watchdog(id: &str, tier: Tier) {
     if WATCHDOG_STARTED.swap(true, Ordering::SeqCst) {
         return;
     }
+    install_segv_handler(id);
     let limit = match (std::env::var("VERIF_TIME_LIMIT").ok().and_then(|s| s.parse::<u64>().ok()), tier) {
         (Some(l), _) => l,
         (None, Tier::Quick) => 1500,
         (None, Tier::Thorough) => 6 * 3600,
     };
     let id = id.to_string();
+    let case_limit = std::env::var("VERIF_CASE_LIMIT").ok().and_then(|s| s.parse::<u64>().ok()).unwrap_or(120);
     std::thread::spawn(move || {
-        std::thread::sleep(std::time::Duration::from_secs(limit));
-        println!("INCONCLUSIVE property={id} reason=time-limit-{limit}s");
-        std::process::exit(2);
+        let t0 = Instant::now();
+        loop {
+            std::thread::sleep(std::time::Duration::from_millis(500));
+            if t0.elapsed().as_secs() >= limit {
+                println!("INCONCLUSIVE property={id} reason=time-limit-{limit}s");
+                std::process::exit(2);
+            }
+            if let Ok(r) = RUNNING.lock() {
+                if let Some(e) = r.iter().find(|e| e.1.elapsed().as_secs() >= case_limit) {
+                    println!("INCONCLUSIVE property={id} reason=case-exceeds-{case_limit}s case={}", one_line(&e.2, 1500));
+                    std::process::exit(2);
+                }
+            }
+        }
     });
 }
 
@@ -313,6 +381,13 @@ impl Report {
     fn is_replay(&self) -> bool {
         matches!(self.mode, Mode::Replay { .. })
     }
+    /// development aid: VERIF_SUB=<name> restricts a run to one sub-check
+    fn skipped(&self, name: &str) -> bool {
+        match std::env::var("VERIF_SUB") {
+            Ok(s) if !s.is_empty() => !self.is_replay() && s != name,
+            _ => false,
+        }
+    }
 
     fn handle_fail(&mut self, sub: &str, stats: &mut SubStats, fail: CaseFail, bytes: Option<&[u8]>, index: Option<u64>) {
         if self.env.known.has(&self.id, &fail.sig) {
@@ -358,6 +433,9 @@ impl Report {
         F: Fn(&mut Src) -> CaseResult + Sync,
     {
         let t0 = Instant::now();
+        if self.skipped(name) {
+            return;
+        }
         if let Mode::Replay { sub, bytes, .. } = &self.mode {
             if sub != name {
                 return;
@@ -367,7 +445,7 @@ impl Report {
             let mut stats = SubStats::default();
             let mut src = Src::new(&bytes);
             src.sample = true;
-            match crate::jq::guarded(|| f(&mut src)) {
+            match done(crate::jq::guarded(|| f(&mut src))) {
                 Ok(Ok(ok)) => {
                     println!("replay: pass ({})", ok.desc.clone().unwrap_or(Value::Null));
                     stats.absorb(ok);
@@ -414,7 +492,7 @@ impl Report {
                             let n = counter.get();
                             counter.set(n + 1);
                             src.sample = !failed.get() && (n < 2 || (w == 0 && n % 997 == 0));
-                            match crate::jq::guarded(|| f(&mut src)) {
+                            match done(crate::jq::guarded(|| f(&mut src))) {
                                 Ok(Ok(ok)) => {
                                     if !failed.get() {
                                         stats.borrow_mut().absorb(ok);
@@ -436,7 +514,7 @@ impl Report {
                             Err(TestError::Fail(_, bytes)) => {
                                 let mut src = Src::new(&bytes);
                                 src.sample = true;
-                                let fail = match crate::jq::guarded(|| f(&mut src)) {
+                                let fail = match done(crate::jq::guarded(|| f(&mut src))) {
                                     Ok(Err(fail)) => fail,
                                     Ok(Ok(_)) => CaseFail::new("flaky", "failure did not reproduce on minimal input", Value::Null),
                                     Err(p) => CaseFail::new(format!("harness-panic:{}", crate::jq::panic_sig(&p)), p, Value::Null),
@@ -484,6 +562,9 @@ impl Report {
         F: Fn(u64, bool) -> CaseResult + Sync,
     {
         let t0 = Instant::now();
+        if self.skipped(name) {
+            return;
+        }
         if let Mode::Replay { sub, index, .. } = &self.mode {
             if sub != name {
                 return;
@@ -491,7 +572,7 @@ impl Report {
             self.replay_hit = true;
             let i = index.unwrap_or(0);
             let mut stats = SubStats::default();
-            match crate::jq::guarded(|| f(i, true)) {
+            match done(crate::jq::guarded(|| f(i, true))) {
                 Ok(Ok(ok)) => {
                     println!("replay: pass ({})", ok.desc.clone().unwrap_or(Value::Null));
                     stats.absorb(ok)
@@ -525,13 +606,13 @@ impl Report {
                                 break;
                             }
                             let sample = stats.evaluations < 2;
-                            match crate::jq::guarded(|| f(i, sample)) {
+                            match done(crate::jq::guarded(|| f(i, sample))) {
                                 Ok(Ok(ok)) => stats.absorb(ok),
                                 Ok(Err(fail)) => {
                                     stats.evaluations += 1;
                                     if sigs.insert(fail.sig.clone()) {
                                         // describe the first failure of each signature
-                                        let fail = match crate::jq::guarded(|| f(i, true)) {
+                                        let fail = match done(crate::jq::guarded(|| f(i, true))) {
                                             Ok(Err(f2)) => f2,
                                             _ => fail,
                                         };
@@ -576,6 +657,9 @@ impl Report {
         F: Fn(usize) -> CaseResult,
     {
         let t0 = Instant::now();
+        if self.skipped(name) {
+            return;
+        }
         let range: Vec<usize> = match &self.mode {
             Mode::Replay { sub, index, .. } => {
                 if sub != name {
@@ -588,7 +672,7 @@ impl Report {
         };
         let mut stats = SubStats::default();
         for i in range {
-            match crate::jq::guarded(|| f(i)) {
+            match done(crate::jq::guarded(|| f(i))) {
                 Ok(Ok(ok)) => stats.absorb(ok),
                 Ok(Err(fail)) => {
                     stats.evaluations += 1;
